@@ -4,6 +4,8 @@ Same operational model and specification as C03 (Model/ExpressPipeline.v, Spec/E
 in random surroundings:
  * Data side: every verdict (all ValidResult values + a validator raising TimeoutError; legacy: nine Python values of both
    truthinesses) x validator latency {at once, before, at (three tie linearisations), after the deadline, never};
+ * Interest side, suspended validators: the validator of an incoming Interest takes its time while the application attaches /
+   detaches routes or replaces the application-wide validator (Model/GateSuspend.v, suspended_table / random_susp);
  * Interest side: every verdict x ApplicationParameters present x signature {none, DigestSha256 ok, DigestSha256 bad}
    x parameters-digest correct x route with/without its own validator x no route, in both front-ends, x every
    placement of a replacement of the application-wide validator (legacy app.int_validator) relative to the installation
@@ -22,6 +24,19 @@ RULE = ('Data side: verdict x latency table (6 resp. 9 verdict values x 8 latenc
         'interleavings of attach / replace-default / Interest / shutdown with independent Interest attributes; the oracle '
         'determines per Interest the validator in force from the history before it (extracted Spec.in_force / default_of) and '
         'checks delivery iff may_deliver, that exactly that validator object was consulted, and consultation before the handler; '
+        'SUSPENDED INTEREST VALIDATORS UNDER ROUTE CHANGES (both front-ends; events arrive / ivdone / detach): a route /a (with / '
+        'without its own validator; legacy: with / without a replaced application-wide validator), an Interest /a/b/h (6 params x '
+        'signature classes, every verdict) whose validator SUSPENDS, and one update of the routing state placed before the arrival / '
+        'IN THE WINDOW between arrival and verdict / after the verdict: nothing, attach a more specific route without / with a '
+        'validator, attach the most specific / an unrelated route, detach the route, detach and re-attach the prefix without / with '
+        'a validator (new handler), detach + attach a more specific one, replace / restore the application-wide validator, attach + '
+        'detach again; optionally a second Interest (immediate / suspended, answered first) that meets the new table; corrupted '
+        'digests; plus random interleavings of attach / detach / setdefault / suspending and immediate Interests / verdicts in any '
+        'order. Oracle (any such history): every handler that receives an Interest was attached at a prefix of its name and the '
+        'validator in force FOR THAT HANDLER (its own; legacy: else the application-wide one at arrival; appv2: none = rejection) '
+        'accepted it (Spec.may_deliver / in_force) and was the one consulted, no double delivery, nothing delivered without a verdict, '
+        'an accepted Interest whose route is unchanged is delivered; correspondence with Model/GateSuspend.v (handler calls, '
+        'validator consultations). '
         'plus the C03 random histories with all verdicts. non-trivial = the validator is consulted or a gate decision is taken; '
         'distinct by history')
 ASSUMPTIONS = ['validators are harness coroutines (verdict chosen by the history); the parameters digest / DigestSha256 '
@@ -302,6 +317,274 @@ def random_gate(ctx, fe, n):
         ctx.case((fe, 'gate', tuple(map(repr, h))), any(e[0] == 'interest' for e in h),
                  {'frontend': fe, 'history': h, 'delivered': sorted({kk for _, kk in r['handler_calls']})}, f'{fe}.interest.random')
 
+# =================================================================================================
+# Suspended Interest validators: the routes change between the arrival of an Interest and its verdict
+# =================================================================================================
+# "... reaches its handler only after the validator in force accepted it ... (where a missing validator means
+# rejection)": a handler and the validator it was attached with belong together.  A validator that takes its time (it
+# fetches a certificate) leaves a window in which the application attaches / detaches routes or replaces the
+# application-wide validator; whatever handler finally gets the Interest, the validator in force FOR THAT HANDLER'S ROUTE
+# must have accepted it.
+S_NAME = AB + (7,)                   # the Interest /a/b/h ; routes below are prefixes of it or unrelated
+S_UPDATES = {
+    # name: events (without times) applied in the window; A/D = attach / detach (prefix, has validator)
+    'none':                 [],
+    'attach-specific-nov':  [('A', AB, False)],
+    'attach-specific-v':    [('A', AB, True)],
+    'attach-most-specific': [('A', S_NAME, False)],
+    'attach-unrelated':     [('A', X, False)],
+    'detach':               [('D', A)],
+    'reattach-nov':         [('D', A), ('A', A, False)],
+    'reattach-v':           [('D', A), ('A', A, True)],
+    'detach-attach-specific': [('D', A), ('A', AB, False)],
+    'replace-default':      [('S', True)],
+    'restore-default':      [('S', False)],
+    'attach-specific-detach-again': [('A', AB, False), ('D', AB)],
+}
+S_ATTRS = [(True, 0), (False, 1), (True, 1), (2, 0), (False, 0), (False, 2)]     # (params, signature class)
+
+
+def susp_history(fe, base_v, upd, where, attrs, v, dflt0=False, second=None, dok=True):
+    """/a attached (validator: base_v); Interest 0 = S_NAME arrives, its validator suspends; the update [upd] happens
+    before the arrival / in the window / after the verdict; verdict v.  second: None | 'imm' | 'susp' - another Interest
+    on the same name arrives after the update (it meets the NEW table) and, if suspended, is answered BEFORE Interest 0."""
+    hp, sig = attrs
+    h, t = [], 0
+
+    def tick():
+        nonlocal t
+        t += 10
+        return t
+    if dflt0:
+        h.append(('setdefault', True, tick()))
+    h.append(('attach', A, base_v, tick()))
+
+    def update():
+        for u in S_UPDATES[upd]:
+            if u[0] == 'A':
+                h.append(('attach', u[1], u[2], tick()))
+            elif u[0] == 'D':
+                h.append(('detach', u[1], tick()))
+            else:
+                h.append(('setdefault', u[1], tick()))
+    if where == 'before':
+        update()
+    h.append(('arrive', 0, S_NAME, hp, sig, dok, tick()))
+    if where == 'window':
+        update()
+    if second == 'imm':
+        h.append(('interest', 1, S_NAME, hp, sig, True, v, tick()))
+    elif second == 'susp':
+        h.append(('arrive', 1, S_NAME, hp, sig, True, tick()))
+        h.append(('ivdone', 1, v, tick()))
+    h.append(('ivdone', 0, v, tick()))
+    if where == 'after':
+        update()
+    h.append(('advance', tick() + 50))
+    return h
+
+
+def rand_susp_history(rng, fe):
+    """Random interleaving of attach / detach / replace-default / arriving Interests (suspending or not) / verdicts."""
+    h, t, k = [], 0, 0
+    table = {}
+    waiting = []
+    pool = [A, AB, S_NAME, X, ABC]
+    nv = 5 if fe == 'v2' else len(P.V1_VALUES)
+    for _ in range(rng.randint(5, 16)):
+        t += rng.choice((1, 5, 10))
+        a = rng.choice(['attach'] * 4 + ['detach'] * 3 + ['setdefault'] * 2 + ['arrive'] * 5 + ['interest'] * 2 + ['ivdone'] * 5)
+        if a == 'attach':
+            cand = [p for p in pool if p not in table]
+            if cand:
+                p = rng.choice(cand)
+                table[p] = rng.random() < 0.5
+                h.append(('attach', p, table[p], t))
+        elif a == 'detach':
+            if table:
+                p = rng.choice(sorted(table))
+                del table[p]
+                h.append(('detach', p, t))
+        elif a == 'setdefault':
+            h.append(('setdefault', rng.random() < 0.7, t))
+        elif a == 'ivdone':
+            if waiting:
+                kk = waiting.pop(rng.randrange(len(waiting)))
+                h.append(('ivdone', kk, rng.choice((P.PASS[fe], P.PASS[fe], rng.randrange(nv))), t))
+        else:
+            hp = rng.choice((False, True, 2))
+            sig = rng.choice((0, 1, 1, 2))
+            dok = True if (not hp and sig == 0) else rng.random() < 0.85
+            n = rng.choice([S_NAME, S_NAME, AB, ABC, X, (9,)])
+            if a == 'arrive':
+                h.append(('arrive', k, n, hp, sig, dok, t))
+                waiting.append(k)
+            else:
+                h.append(('interest', k, n, hp, sig, dok, rng.choice((P.PASS[fe], rng.randrange(nv))), t))
+            k += 1
+    for kk in waiting:
+        if rng.random() < 0.8:
+            t += 5
+            h.append(('ivdone', kk, rng.choice((P.PASS[fe], rng.randrange(nv))), t))
+    h.append(('advance', t + 100))
+    return h
+
+
+def m_gevents(fe, h):
+    """The history in the vocabulary of Model/GateSuspend.v."""
+    out = []
+    for ev in h:
+        tag = ev[0]
+        if tag == 'attach':
+            out.append([0, list(ev[1]), ev[2]])
+        elif tag == 'detach':
+            out.append([1, list(ev[1])])
+        elif tag == 'setdefault':
+            out.append([2, ev[1]])
+        elif tag == 'arrive':
+            _, k, n, hp, sig, dok, _t = ev
+            out.append([3, [k, list(n), hp, sig, dok, 0], 1])
+        elif tag == 'interest':
+            _, k, n, hp, sig, dok, v, _t = ev
+            out.append([3, [k, list(n), hp, sig, dok, P.m_verdict(fe, v)], 0])
+        elif tag == 'ivdone':
+            out.append([4, ev[1], P.m_verdict(fe, ev[2])])
+    return out
+
+
+def susp_oracle(ctx, fe, h, r, site):
+    """Property oracle for histories with suspended Interest validators and route changes (any such history)."""
+    case = {'frontend': fe, 'history': h}
+    if r['errors'] or r['loop_errors']:
+        ctx.violation(site, 'internal-error', f'{r["errors"]} {r["loop_errors"]}', case)
+    delivered = {}
+    for hd, kk in r['handler_calls']:
+        delivered.setdefault(kk, []).append(hd)
+    who = {}
+    for kk, w in r['ivwho']:
+        who.setdefault(kk, []).append(tuple(w))
+    table = {}                   # prefix -> handler id (routes attached now)
+    att = {}                     # handler id -> (prefix, has validator): every attachment ever made
+    n_att = 0
+    sd_before = []               # the setdefault events so far (what Spec.default_of looks at)
+    last_default, n_default = None, 0
+    info = {}                    # k -> what was in force when it arrived
+    for j, ev in enumerate(h):
+        tag = ev[0]
+        if tag == 'attach':
+            table[tuple(ev[1])] = n_att
+            att[n_att] = (tuple(ev[1]), ev[2])
+            n_att += 1
+        elif tag == 'detach':
+            table.pop(tuple(ev[1]), None)
+        elif tag == 'setdefault':
+            sd_before.append(ev)
+            if ev[1]:
+                last_default, n_default = n_default, n_default + 1
+            else:
+                last_default = None
+        elif tag in ('arrive', 'interest'):
+            kk, n, hp, sig, dok = ev[1:6]
+            route = py_lpm([(p, hd) for p, hd in table.items()], n)
+            info[kk] = {'name': n, 'hp': hp, 'sig': sig, 'dok': dok, 'route': route, 'sd': list(sd_before),
+                        'default': last_default, 'verdict': ev[6] if tag == 'interest' else None,
+                        'suspends': tag == 'arrive', 'table_at_verdict': dict(table) if tag == 'interest' else None}
+        elif tag == 'ivdone':
+            i = info.get(ev[1])
+            if i is not None and i['suspends'] and i['verdict'] is None:
+                i['verdict'] = ev[2]
+                i['table_at_verdict'] = dict(table)
+    for kk, i in sorted(info.items()):
+        n, hp, sig, dok = i['name'], i['hp'], i['sig'], i['dok']
+        plain = (not hp) and sig == 0
+        needs = (hp or sig != 0) if fe == 'v2' else (sig != 0)
+        got = delivered.get(kk, [])
+        v = i['verdict']
+        mv = P.m_verdict(fe, v) if v is not None else 0          # no verdict (yet): nobody accepted
+        hist = P.m_history(fe, i['sd'])
+
+        def allowed_on(hasv):
+            own = bool(ctx.call([4, P.fe_num(fe), hasv, hist]))
+            return own, bool(ctx.call([3, P.fe_num(fe), own, [kk, list(n), hp, sig, dok, mv]]))
+        if len(got) > 1:
+            ctx.violation(site, 'delivered-twice', f'Interest {kk} reached handlers {got}', case)
+        cls = f'params={int(hp)}:sig={sig}:digest_ok={int(dok)}:verdict={v}'
+        for hd in got:
+            pfx, hasv = att[hd]
+            arrival = i['route'] is not None and i['route'][1] == hd
+            own, ok = allowed_on(hasv)
+            rel = 'arrival-route' if arrival else 'route-changed-during-validation'
+            if tuple(n[:len(pfx)]) != pfx:
+                ctx.violation(site, 'handler-of-foreign-prefix', f'Interest {kk} {n} reached the handler attached at {pfx}', case)
+            elif not ok:
+                ctx.violation(site, f'delivered-unvalidated:{rel}:validator={"own" if hasv else ("app-default" if own else "none")}:' + cls,
+                              f'Interest {kk} reached handler {hd} (attached at {pfx}, validator: {hasv}); the validator in force '
+                              f'for that handler did not accept it (a missing validator means rejection)', case)
+            elif needs and dok and own:
+                want = ('route', hd) if hasv else ('default', i['default'])
+                if want not in who.get(kk, []):
+                    ctx.violation(site, f'handler-validator-not-consulted:{rel}:consulted={who.get(kk, [[None]])[0][0]}',
+                                  f'Interest {kk} reached handler {hd} (attached at {pfx}) but the validator in force for it '
+                                  f'({want}) was never asked; consulted: {who.get(kk, [])}', case)
+            if needs and own and not r['validated_before'].get(kk, False):
+                ctx.violation(site, 'handler-before-validator:' + cls, 'the handler ran before a validator was consulted', case)
+        # an acceptable Interest is not lost: its route is still attached when the verdict is there
+        if i['route'] is not None and i['table_at_verdict'] is not None:
+            pfx, hd0 = i['route']
+            now = py_lpm(list(i['table_at_verdict'].items()), n)
+            still = i['table_at_verdict'].get(tuple(pfx)) == hd0 and now is not None and now[1] == hd0
+            own, ok = allowed_on(att[hd0][1])
+            if still and ok and (v is not None or not (needs and own)) and not got:
+                ctx.violation(site, 'dropped-valid:' + cls, f'Interest {kk} was accepted by the validator in force and its route '
+                              f'is unchanged, but no handler was called', case)
+        if i['route'] is None and (got or kk in who):
+            ctx.violation(site, 'handler-or-validator-without-route', f'Interest {kk} had no route when it arrived', case)
+        if plain and kk in who:
+            ctx.violation(site, 'validator-consulted-for-plain', 'a plain Interest was handed to a validator', case)
+        ctx.stat(f'{fe}.suspended.' + ('no-route' if i['route'] is None else 'delivered' if got else 'dropped'))
+
+
+def run_susp(ctx, fe, h, key, sample, stratum):
+    site = ('appv2.NDNApp._on_interest' if fe == 'v2' else 'app.NDNApp._on_interest')
+    r = P.canon_impl(fe, P.run_impl(fe, h))
+    m = ctx.call([5, P.fe_num(fe), m_gevents(fe, h)])
+    mh = [tuple(x) for x in m[0]]
+    if mh != r['handler_calls'] or list(m[1]) != r['ivcalls']:
+        ctx.disagree(f'on_interest.suspended[{fe}]', 'handler invocations / validator consultations differ (Model/GateSuspend.v)',
+                     {'frontend': fe, 'history': h}, [mh, list(m[1])], [r['handler_calls'], r['ivcalls']])
+    susp_oracle(ctx, fe, h, r, site)
+    sample = dict(sample)
+    sample.update({'frontend': fe, 'delivered': r['handler_calls']})
+    ctx.case(key, any(e[0] == 'arrive' for e in h), sample, stratum)
+
+
+def suspended_table(ctx, fe):
+    nv = 5 if fe == 'v2' else len(P.V1_VALUES)
+    verdicts = list(range(nv))
+    for upd in S_UPDATES:
+        for where in ('before', 'window', 'after'):
+            for base_v in (True, False):
+                for attrs in (S_ATTRS if (ctx.thorough or where == 'window') else S_ATTRS[:3]):
+                    for v in verdicts:
+                        for dflt0 in ((False, True) if fe == 'v1' else (False,)):
+                            seconds = (None, 'imm', 'susp') if (ctx.thorough or (where == 'window' and v == P.PASS[fe])) else (None,)
+                            for second in seconds:
+                                h = susp_history(fe, base_v, upd, where, attrs, v, dflt0, second)
+                                run_susp(ctx, fe, h, (fe, 'susp', upd, where, base_v, attrs, v, dflt0, second),
+                                         {'update': upd, 'where': where, 'route_validator': base_v, 'attrs': attrs, 'verdict': v},
+                                         f'{fe}.suspended.{upd}.{where}')
+    # corrupted digest: dropped before any validator, whatever happens to the routes
+    for upd in S_UPDATES:
+        for attrs in S_ATTRS[:4]:
+            h = susp_history(fe, True, upd, 'window', attrs, P.PASS[fe], False, None, dok=False)
+            run_susp(ctx, fe, h, (fe, 'susp-baddigest', upd, attrs), {'update': upd, 'attrs': attrs}, f'{fe}.suspended.bad-digest')
+
+
+def random_susp(ctx, fe, n):
+    for _ in range(n):
+        h = rand_susp_history(ctx.rng, fe)
+        run_susp(ctx, fe, h, (fe, 'susp-rand', tuple(map(repr, h))), {'history': h}, f'{fe}.suspended.random')
+
 
 def run(ctx):
     from ndn.types import ValidResult as VR
@@ -312,6 +595,8 @@ def run(ctx):
     for fe in ('v2', 'v1'):
         interest_table(ctx, fe)
         random_gate(ctx, fe, ctx.n(200, 6000))
+        suspended_table(ctx, fe)
+        random_susp(ctx, fe, ctx.n(300, 6000))
         reps = ctx.n(3, 60)
         for _ in range(reps):
             for v in P.verdicts(fe):
@@ -328,6 +613,10 @@ def run(ctx):
 
 def replay(ctx, data):
     case = data['case']
+    if any(e[0] in ('arrive', 'ivdone', 'detach') for e in case['history']):
+        c = P.unjson_case(case)
+        run_susp(ctx, c['frontend'], c['history'], ('replay',), {}, 'replay')
+        return
     if any(e[0] in ('attach', 'interest', 'setdefault') for e in case['history']):
         c = P.unjson_case(case)
         fe, h = c['frontend'], c['history']
